@@ -395,6 +395,13 @@ class SigmaDetection(ParentChainMixin):
                 )
             if len(detection_items) == 1:  # Only one detection item? Return it as result.
                 return detection_items[0]
+            elif self.item_linking is ConditionOR and detection_items_types == {dict}:
+                # OR-linked detection items (e.g. from an one-to-many field mapping) can't be
+                # expressed as map, whose items are AND-linked.
+                raise sigma_exceptions.SigmaValueError(
+                    "Can't convert detection into plain value because its OR-linked detection items can't be expressed as map.",
+                    source=self.source,
+                )
             else:  # More than one detection item, it depends now on the types
                 if dict in detection_items_types and len(detection_items_types) > 1:
                     # Merging dicts with other types isn't possibly, at least not in a simple way.
